@@ -5,7 +5,8 @@
     `services`    — key shape of every `make_key` call site of every service class;
     `orbitCfg`    — the nine behaviour switches probed on the real LyapunovOrbit / Manifold with the histories that
                     `witness_discriminates` proves characteristic;
-    `cmCfg`       — the three switches probed on the real CenterManifold.
+    `cmCfg`       — the three switches probed on the real CenterManifold;
+    `stabCfgManifold`, `stabCfgLibration` — the two switches of the `compute_stability(options)` cache.
   A theorem here stops checking exactly when the code loses the corresponding behaviour; the harness then reports the
   shortest stale history on the real objects (the witness history of that switch).
 -/
@@ -53,5 +54,15 @@ theorem tree_cm_cfg_sound : Gen.C20.cmCfg.sound = true := by decide
 theorem cm_no_stale_read_tree (O : COracle) (d : Nat) (ops : List COp) :
     runC Gen.C20.cmCfg O (freshC d) ops = runCL Gen.C20.cmCfg O d ops :=
   cm_no_stale_read _ tree_cm_cfg_sound O d ops
+
+/-- the stability-cache behaviours probed on the real Manifold and on the real LibrationPoint are the sound ones -/
+theorem tree_stab_cfg_sound : Gen.C20.stabCfgManifold.sound = true ∧ Gen.C20.stabCfgLibration.sound = true := by
+  decide
+
+/-- no_stale_read for the current tree's `compute_stability` caches -/
+theorem stab_no_stale_read_tree (R : Tok → Tok → Tok) (c o : Tok) (ops : List SOp) :
+    runS Gen.C20.stabCfgManifold R (freshS c o) ops = runSL R (c, o) ops ∧
+    runS Gen.C20.stabCfgLibration R (freshS c o) ops = runSL R (c, o) ops :=
+  ⟨stab_no_stale_read _ tree_stab_cfg_sound.1 R c o ops, stab_no_stale_read _ tree_stab_cfg_sound.2 R c o ops⟩
 
 end HitenModel.Props.C20
